@@ -72,7 +72,9 @@ def run(ctx):
         L = b - a
         # admissible shifts are not bounded by the support length (the wrap is a modulo): a third of the cases draw up to 3 L
         Lmax = (3 * L if k % 3 == 0 else L) / 1e9
-        mn, mx = sorted([ctx.rng.uniform(0, Lmax), ctx.rng.uniform(0, Lmax)])
+        # ... nor by sign: every fourth case shifts backwards (negative min / max shift)
+        Lmin = -Lmax if k % 4 == 1 else 0.0
+        mn, mx = sorted([ctx.rng.uniform(Lmin, Lmax if Lmin == 0.0 else 0.0), ctx.rng.uniform(Lmin, Lmax if Lmin == 0.0 else 0.0)])
         r = nap.shift_timestamps(x, min_shift=mn, max_shift=mx) if k % 2 else nap.shift_timestamps(x)
         if len(r) != len(ts) or iset_ns(r.time_support) != ([a], [b]) or not all(a <= t <= b for t in ns_arr(r.t)):
             ctx.fail("oracle", "shift_timestamps: count / support not conserved", inp, impl=[len(r), ns_arr(r.t)], expected=len(ts))
@@ -121,7 +123,7 @@ def run(ctx):
             kt = "+".join("%d@%s" % (j, enc(mem[j])) for j in (4, 7, 9))
             supp = "%d:%d" % (a, b)
             mjk = min(mj, q / 2e9)
-            gens = (("shift_timestamps", lambda g: nap.shift_timestamps(g, min_shift=0.0, max_shift=(b - a) / 1e9 * 2), True,
+            gens = (("shift_timestamps", lambda g: nap.shift_timestamps(g, min_shift=-(b - a) / 1e9, max_shift=(b - a) / 1e9 * 2), True,
                      lambda log: "gshift %s %d %d %s" % (kt, a, b, enc([v for kind, v in log if kind == "u"]))),
                     ("resample_timestamps", lambda g: nap.resample_timestamps(g), True,
                      lambda log: "gjitter %s %s %s" % ("+".join("%d@%s" % (j, enc([0] * len(mem[j]))) for j in (4, 7, 9)),
@@ -170,7 +172,7 @@ def run(ctx):
                         ctx.fail("oracle", "%s(TsGroup): the single-spike member lost its spike" % name, ginp, impl=got, finding_ctx=fctx)
         # ---- (b) lattice draws, model must reproduce exactly
         d = Draws(ctx.rng, q)
-        r = with_draws(d, lambda: nap.shift_timestamps(x, min_shift=0.0, max_shift=(b - a) / 1e9 * 2))
+        r = with_draws(d, lambda: nap.shift_timestamps(x, min_shift=(-(b - a) / 1e9 * 2 if k % 2 else 0.0), max_shift=(b - a) / 1e9 * 2))
         lines.append("shift %s %d %d %d" % (enc(ts), a, b, d.log[-1][1])); meta.append((dict(inp, op="shift", draws=d.log[-1][1]), ns_arr(r.t)))
         if len(r) != len(ts) or iset_ns(r.time_support) != ([a], [b]) or not all(a <= t <= b for t in ns_arr(r.t)):
             ctx.fail("oracle", "shift_timestamps (shift up to twice the support length): count / support not conserved", dict(inp, shift_ns=d.log[-1][1]),
@@ -195,5 +197,5 @@ def run(ctx):
 
 
 def replay(ctx, rec):
-    print("re-run `./check C20 quick` with VERIF_SEED=%s; failing input: %s" % (rec.get("seed"), rec.get("input")))
-    return False
+    print("re-executing the recorded run of `./check C20 quick` with VERIF_SEED=%s; failing input: %s" % (rec.get("seed"), rec.get("input")))
+    return None
